@@ -62,7 +62,7 @@ class Run:
             return
         self.violations.append({"rule": rule, "key": full, "what": what, "loc": loc, "detail": detail})
 
-    _OPAQUE = re.compile(r"<opaque>|\('opaque'|-> opaque\b|= opaque\b|\bopaque not foldable|gives opaque\b|is opaque\b")
+    _OPAQUE = re.compile(r"<opaque[:>]|\('opaque'|-> opaque\b|= opaque\b|\bopaque not foldable|gives opaque\b|is opaque\b")
 
     def check(self, cond, rule, key, what_ok, what_bad=None, loc=None, detail=None, nontrivial=True):
         if cond:
@@ -200,8 +200,11 @@ class Run:
             json.dump(ev, f, indent=1)
         nrules = len(self.rule_counts)
         for u in self.undecided:
-            print("NOT-DECIDED property=%s rule=%s/%s: private baseline function(s) %s no longer exist" %
-                  (self.prop, u["rule"], u["key"], ", ".join(u["gone"])))
+            if "gone" in u:
+                print("NOT-DECIDED property=%s rule=%s/%s: private baseline function(s) %s no longer exist" %
+                      (self.prop, u["rule"], u["key"], ", ".join(u["gone"])))
+            else:
+                print("NOT-DECIDED property=%s rule=%s/%s: %s" % (self.prop, u["rule"], u["key"], u.get("why", "")))
         print("%s %s: %d rule instances over %d rules, %d violations (%d known), %.1fs" %
               (self.prop, self.tier, len(self.instances), nrules, len(real), len(kf), wall))
         return 1 if real else 0
